@@ -51,6 +51,7 @@ var c17ExpectedInventory = []string{
 	"field:garblePool",
 	"garbleScratchPool:call:garblePool.CompareAndSwap",
 	"garbleScratchPool:call:garblePool.Load",
+	"garbleScratchPool:order:New-before-CompareAndSwap",
 }
 
 func c17CheckInventory(c *Ctx) {
@@ -320,6 +321,9 @@ func randBits(r *RNG, n int) []bool {
 func runC17Child(c *Ctx) error {
 	if raceEnabled {
 		fmt.Fprintln(os.Stderr, "c17child: race detector on")
+	}
+	if err := c17FirstUse(c); err != nil {
+		return err
 	}
 	for sr := 0; sr < c.N(8, 120); sr++ {
 		if err := c17Sessions(c, sr); err != nil {
@@ -830,6 +834,129 @@ func c17Sessions(c *Ctx, sr int) error {
 	c.Hist(fmt.Sprintf("sessions-wrong-evals:%v", totalBad > 0))
 	for _, s := range ss {
 		s.g.Release()
+	}
+	return nil
+}
+
+// c17Chain builds a long gate chain: gate k combines the previous wire with an
+// input wire; all gate kinds occur; the last four wires are the outputs.
+func c17Chain(r *RNG, ni, ng int) *circuit.Circuit {
+	ops := []circuit.Operation{circuit.AND, circuit.XOR, circuit.OR, circuit.INV, circuit.XNOR, circuit.AND}
+	gates := make([]circuit.Gate, ng)
+	prev := 0
+	for k := 0; k < ng; k++ {
+		gates[k] = circuit.Gate{Input0: circuit.Wire(prev), Input1: circuit.Wire(r.Intn(ni)), Output: circuit.Wire(ni + k), Op: ops[r.Intn(len(ops))]}
+		prev = ni + k
+	}
+	c := &circuit.Circuit{NumGates: ng, NumWires: ni + ng, Gates: gates}
+	c.Inputs = circuit.IO{{Name: "a", Type: uintInfo(ni)}}
+	c.Outputs = circuit.IO{{Name: "r0", Type: uintInfo(4)}}
+	for _, g := range gates {
+		c.Stats[g.Op]++
+	}
+	return c
+}
+
+// c17FirstUse: G goroutines released from a barrier call Garble on a circuit
+// value that has NEVER been garbled (its scratch pool does not exist yet), then
+// Eval, decode, compare with Compute, Release.  The circuits are long chains so
+// that building the pool takes a while; every trial uses a fresh Circuit value
+// (a fresh copy of the chain, or a newly built chain).
+func c17FirstUse(c *Ctx) error {
+	r := c.rng.Fork()
+	trials := c.N(5, 40)
+	var base *circuit.Circuit
+	for tr := 0; tr < trials; tr++ {
+		ni := r.Range(4, 8)
+		if base == nil || tr%2 == 0 {
+			base = c17Chain(r, ni, r.Range(50000, c.N(120000, 200000)))
+		}
+		ni = base.Inputs.Size()
+		circ := freshCopy(base) // never garbled: its pool pointer is nil
+		key := r.Bytes([]int{16, 24, 32}[tr%3])
+		G := r.Range(8, 16)
+		type out struct {
+			panic, err, bad string
+		}
+		outs := make([]out, G)
+		seeds := make([]uint64, G)
+		xs := make([][]bool, G)
+		wants := make([][]bool, G)
+		for i := range seeds {
+			seeds[i] = r.U64()
+			xs[i] = randBits(r, ni)
+			wants[i] = TruthEval(base, xs[i])
+		}
+		start := make(chan struct{})
+		var wg sync.WaitGroup
+		for i := 0; i < G; i++ {
+			wg.Add(1)
+			go func(i int) {
+				defer wg.Done()
+				defer func() {
+					if p := recover(); p != nil {
+						outs[i].panic = fmt.Sprint(p)
+					}
+				}()
+				<-start
+				g, err := circ.Garble(NewRNG(seeds[i]), key)
+				if err != nil {
+					outs[i].err = err.Error()
+					return
+				}
+				_, dec, err := evalOn(circ, key, g.Wires, g.Gates, xs[i])
+				if err != nil {
+					outs[i].err = "Eval: " + err.Error()
+					return
+				}
+				comp, err := circ.Compute(SplitInputs(circ, xs[i]))
+				if err != nil {
+					outs[i].err = "Compute: " + err.Error()
+					return
+				}
+				if bitsString(decBits(dec)) != bitsString(wants[i]) || bitsString(JoinOutputs(circ, comp)) != bitsString(wants[i]) {
+					outs[i].bad = fmt.Sprintf("decoded %s, Compute %s, expected %s", bitsString(decBits(dec)), bitsString(JoinOutputs(circ, comp)), bitsString(wants[i]))
+				}
+				g.Release()
+			}(i)
+		}
+		close(start)
+		wg.Wait()
+		nPanic, nErr, nBad := 0, 0, 0
+		first := ""
+		for i, o := range outs {
+			c.Eval(fmt.Sprintf("firstuse/%d/%d", tr, i), true)
+			switch {
+			case o.panic != "":
+				nPanic++
+				if first == "" {
+					first = o.panic
+				}
+			case o.err != "":
+				nErr++
+				if first == "" {
+					first = o.err
+				}
+			case o.bad != "":
+				nBad++
+				if first == "" {
+					first = o.bad
+				}
+			}
+		}
+		rep := map[string]interface{}{"seed": c.Seed, "trial": tr, "goroutines": G, "gates": len(base.Gates), "inputs": ni,
+			"key": fmt.Sprintf("%x", key), "first": first}
+		if nPanic > 0 {
+			c.Fail("c17:concurrent-first-garble:panic", fmt.Sprintf("%d of %d goroutines calling Garble concurrently on a never-garbled circuit (%d gates) panicked: %s", nPanic, G, len(base.Gates), first), rep)
+		}
+		if nErr > 0 {
+			c.Fail("c17:concurrent-first-garble:error", fmt.Sprintf("%d of %d goroutines: %s", nErr, G, first), rep)
+		}
+		if nBad > 0 {
+			c.Fail("c17:concurrent-first-garble:wrong-result", fmt.Sprintf("%d of %d goroutines: %s", nBad, G, first), rep)
+		}
+		c.Hist(fmt.Sprintf("first-use-trial:goroutines=%d", G))
+		c.Hist(fmt.Sprintf("first-use-failed:%v", nPanic+nErr+nBad > 0))
 	}
 	return nil
 }
